@@ -25,12 +25,14 @@ def main() -> int:
                 rc = 1
     with Lock():
         sh(["sh", "./mkproject.sh"], cwd=COQ)
-        code, out, err = sh(["make", "-f", "Makefile.coq", f"-j{NPROC}"], cwd=COQ, timeout=3000)
+        code, out, err = sh(["make", "-k", "-f", "Makefile.coq", f"-j{NPROC}"], cwd=COQ, timeout=3000)
     print(out[-3000:])
     if code != 0:
         print(err[-6000:])
-        print("setup: coq build failed")
-        return 1
+        print("setup: coq build had failures (make -k); the checks of the affected properties will report them")
+        if not all(os.path.exists(os.path.join(COQ, "lib", f + ".vo")) for f in ("Bytes", "BytesFacts", "Utf8", "Utf8Facts", "ExtractBase")):
+            print("setup: FAILED (shared library did not build)")
+            return 1
     for pid in PROPS:
         if os.path.exists(os.path.join(COQ, pid, "driver.ml")):
             chk = Check(pid, "quick", 0)
